@@ -1060,10 +1060,22 @@ def _sem(node, params, defs, globals_, order=None):
     return ws(unparse(wrap)).strip()
 
 
+def _eff_params(f):
+    """Parameters by position - except those the function re-binds (and N14 could not split into versions): such a name stands
+    for different values at different places and is treated like a local."""
+    rebound = set()
+    for n in f.walk():
+        if isinstance(n, ast.Name) and isinstance(n.ctx, (ast.Store, ast.Del)):
+            rebound.add(n.id)
+        elif isinstance(n, ast.AugAssign) and isinstance(n.target, ast.Name):
+            rebound.add(n.target.id)
+    return [p if p not in rebound else '<rebound %d>' % i for i, p in enumerate(f.params)]
+
+
 def sem_text(f, node):
     """Meaning-level text of an expression / statement of `f`: parameters by position, single-definition pure locals replaced by
     their definitions, remaining locals numbered, normal form (sa/canon.py)."""
-    return _sem(node, list(f.params), local_defs(f), module_globals(f.module) | ALL_GLOBALS)
+    return _sem(node, _eff_params(f), local_defs(f), module_globals(f.module) | ALL_GLOBALS)
 
 
 def sem_expected(text, params, module=None):
@@ -1111,7 +1123,11 @@ class _FakeFunc(object):
     def __init__(self, text, params, module=None):
         src = 'def _expected(%s):\n%s' % (', '.join(params), '\n'.join('    ' + l for l in _dedent(text).splitlines()))
         from .. import canon as _cn
-        self.node = _cn.normalise(ast.parse(src)).body[0]
+        from .. import inline as _il
+        tree = _cn.normalise(ast.parse(src))
+        if _il.inline_module(tree, '<reference>'):
+            tree = _cn.normalise(tree)
+        self.node = tree.body[0]
         self.params = list(params)
         self.module = module
 
@@ -1138,7 +1154,7 @@ def sem_body(f):
     for st in _body(f.node):
         if isinstance(st, ast.Assign) and len(st.targets) == 1 and isinstance(st.targets[0], ast.Name) and st.targets[0].id in defs:
             continue        # the definition of an inlined local
-        out.append(_sem(st, list(f.params), defs, g, order))
+        out.append(_sem(st, _eff_params(f), defs, g, order))
     return ' ; '.join(out)
 
 
@@ -1163,8 +1179,8 @@ def trace(f, am, member_var, props, env=None, body=None, pre_order=None):
     for text, maybe, node in effects:
         if isinstance(node, ast.Assign) and len(node.targets) == 1 and isinstance(node.targets[0], ast.Name) and node.targets[0].id in defs:
             continue
-        conds = tuple(('' if pol else 'not ') + _sem(t, list(f.params), defs, g, order) for pol, t in maybe)
-        out.append((conds, _sem(node, list(f.params), defs, g, order)))
+        conds = tuple(('' if pol else 'not ') + _sem(t, _eff_params(f), defs, g, order) for pol, t in maybe)
+        out.append((conds, _sem(node, _eff_params(f), defs, g, order)))
     return out, outcome if isinstance(outcome, str) else outcome[0]
 
 
